@@ -111,9 +111,9 @@ type TypeV struct{ T *DT }
 // GenT: abstract ddpIrType of the generator
 type GenT struct {
 	Fields []*GenT // field types of a struct class, when the rule needs them
-	Kind string // int float byte bool char string any void list struct
-	Elem *GenT
-	Name string
+	Kind   string  // int float byte bool char string any void list struct
+	Elem   *GenT
+	Name   string
 }
 
 func (g *GenT) String() string {
@@ -255,7 +255,7 @@ func (v *IRVal) prov() []string {
 	return out
 }
 
-type IRTy struct{ Name string }   // llvm type by class name
+type IRTy struct{ Name string }    // llvm type by class name
 type IRFuncV struct{ Name string } // an *ir.Func by symbolic name
 
 type Obj struct {
